@@ -2757,7 +2757,9 @@ def fixup_dilation_gt2(op: Operation, arch, nng) -> Operation:
             new_kernel_w = (kernel_w - 1) * scale_dilation_w + 1
 
             new_kernel_shape = [new_kernel_h, new_kernel_w, kernel_ic, kernel_oc]
+            # the inserted weights are zero, which is the zero point in the quantised kernel (128 for uint8 weights)
             new_kernel_values = np.zeros(new_kernel_shape, dtype=op.weights.values.dtype)
+            new_kernel_values[...] = op.weights.quantization.zero_point
 
             # copy the original kernel values into the new sparse kernel
             for h in range(0, kernel_h):
